@@ -4,7 +4,7 @@
 A=$1; B=$2; shift 2
 IDS="$@"; [ -z "$IDS" ] && IDS=$(python3 -c "import json;print(' '.join(c['property_id'] for c in json.load(open('/verif/MANIFEST.json'))['checks']))")
 OUT=/verif/.work/quiet; mkdir -p $OUT
-for id in $IDS; do for s in $(seq $A $B); do echo "$id $s"; done; done | xargs -P 12 -L 1 bash -c '
+for id in $IDS; do for s in $(seq $A $B); do echo "$id $s"; done; done | xargs -P ${QUIET_JOBS:-12} -L 1 bash -c '
   id=$0; s=$1; d=/verif/.work/quiet/$id.$s; mkdir -p $d
   VERIF_SEED=$s LOV_EVIDENCE_DIR=$d LOV_REPLAY_DIR=$d/replays LOV_NO_FUZZ=1 /verif/check $id --tier quick > $d/log 2>&1; code=$?
   if [ $code -ne 0 ]; then echo "NOT QUIET $id seed=$s exit=$code"; grep -B1 "^VIOLATION\|HARNESS" $d/log | cut -c1-400; else rm -rf $d; fi'
